@@ -437,8 +437,17 @@ impl LockFreeMemoryPool {
                 }
             }
 
-            // Perform allocation
-            results.push(self.allocate(size)?);
+            // Perform allocation.  If one request cannot be served the caller receives no block at
+            // all, so the blocks taken so far go back to the pool instead of being lost with `results`
+            match self.allocate(size) {
+                Ok(ptr) => results.push(ptr),
+                Err(e) => {
+                    for (ptr, &taken_size) in results.into_iter().zip(sizes.iter()) {
+                        let _ = self.deallocate(ptr, taken_size);
+                    }
+                    return Err(e);
+                }
+            }
         }
 
         Ok(results)
